@@ -168,6 +168,11 @@ impl SignatureContext<'_> {
 
         let amz_date = AmzDate::parse(info.x_amz_date).map_err(|_| invalid_request!("invalid field: x-amz-date"))?;
 
+        // the credential scope is signed with the date of `x-amz-date`
+        if credential.date != amz_date.fmt_date().as_str() {
+            return Err(invalid_request!("invalid field: x-amz-credential"));
+        }
+
         let access_key = credential.access_key_id.to_owned();
         let secret_key = auth.get_secret_key(&access_key).await?;
 
@@ -204,6 +209,14 @@ impl SignatureContext<'_> {
             return Err(s3_error!(
                 NotImplemented,
                 "X-Amz-Algorithm other than AWS4-HMAC-SHA256 is not implemented"
+            ));
+        }
+
+        // the credential scope is signed with the date of `X-Amz-Date`
+        if presigned_url.credential.date != presigned_url.amz_date.fmt_date().as_str() {
+            return Err(s3_error!(
+                AuthorizationQueryParametersError,
+                "the date of the credential scope does not match X-Amz-Date"
             ));
         }
 
@@ -293,6 +306,13 @@ impl SignatureContext<'_> {
         let region = authorization.credential.aws_region;
         let service = authorization.credential.aws_service;
 
+        if authorization.algorithm != "AWS4-HMAC-SHA256" {
+            return Err(s3_error!(
+                NotImplemented,
+                "authorization algorithm other than AWS4-HMAC-SHA256 is not implemented"
+            ));
+        }
+
         if !matches!(service, "s3" | "sts") {
             return Err(s3_error!(NotImplemented, "unknown service"));
         }
@@ -309,6 +329,14 @@ impl SignatureContext<'_> {
         let secret_key = auth.get_secret_key(access_key).await?;
 
         let amz_date = extract_amz_date(&self.hs)?.ok_or_else(|| invalid_request!("missing header: x-amz-date"))?;
+
+        // the credential scope is signed with the date of `x-amz-date`
+        if authorization.credential.date != amz_date.fmt_date().as_str() {
+            return Err(s3_error!(
+                AuthorizationHeaderMalformed,
+                "the date of the credential scope does not match x-amz-date"
+            ));
+        }
 
         let is_stream = matches!(amz_content_sha256, Some(AmzContentSha256::MultipleChunks));
 
